@@ -15,7 +15,20 @@ InitState == [scores |-> <<>>, remaining |-> {}, live |-> FALSE, overflow |-> FA
 \* (identifies executions that run into the known non-saturating generic 8-bit kernel, see C08)
 Overflow(e) == \E i \in 0..(NRows(Len(e.seq), 32) * 32 - 1) : PlainScore(e.pssm8, e.seq, i, e.K - 1) > 255
 
+\* max_big: one best-hit request on a sequence of millions of symbols (more than 65 536 striped rows, block sizes beyond
+\* that).  TLC cannot hold such a sequence: the event carries the harness's own naive rescoring (want_none / want_score,
+\* declared as trusted in the evidence) and the specification states the relation of C03 on it - no panic, None exactly
+\* when nothing qualifies, otherwise a hit whose exact score (re-scored at the returned position: at_pos) is the maximum.
+ApplyBig(s, e) ==
+  [ok |-> /\ e.ret \in {"hit", "none"}
+          /\ (e.ret = "none") = e.want_none
+          /\ (e.ret = "hit" => e.score = e.want_score /\ e.at_pos = e.score /\ e.pos >= 0 /\ e.pos <= e.L - e.M),
+   st |-> s,
+   exp |-> [why |-> IF e.ret = "panic" THEN "panic" ELSE IF e.ret = "none" THEN "missed_hits" ELSE "not_the_maximum",
+            nrem |-> 0, overflow |-> FALSE, best |-> e.want_score]]
+
 Apply(s, e) ==
+  IF e.ev = "max_big" THEN ApplyBig(s, e) ELSE
   IF e.ev = "scan_new"
   THEN IF e.ret = "ok"
        THEN [ok |-> TRUE, st |-> [ScanInit(e.pssm, e.seq, e.thr, e.K - 1) EXCEPT !.overflow = Overflow(e)], exp |-> 0]
